@@ -97,10 +97,22 @@ pub fn die_status(tag: &str, a: u64, b: u64, c: u64, code: i32) -> ! {
     }
 }
 
+static REPLAY_MSG: std::sync::OnceLock<Vec<u8>> = std::sync::OnceLock::new();
+/// In replay mode an exceeded cap prints this (pre-formatted) message and exits 1.
+pub fn set_replay_message(m: String) {
+    let _ = REPLAY_MSG.set(m.into_bytes());
+}
+
 #[cold]
 fn die_alloc(req: usize, live: usize) -> ! {
     // disarm so that nothing below can recurse
     HARD_CAP.store(usize::MAX, Relaxed);
+    if let Some(m) = REPLAY_MSG.get() {
+        unsafe {
+            libc::write(1, m.as_ptr() as *const libc::c_void, m.len());
+            libc::_exit(1);
+        }
+    }
     die_status("ALLOC", CUR_IDX.load(Relaxed), req as u64, live as u64, 4)
 }
 
